@@ -111,6 +111,7 @@ func (h *Harness) CountStats(e *Engine) {
 	r.Count("once_fired", int64(st.Zombies))
 	r.Count("unsubscribes_of_a_once_handler_fired_by_the_running_publish", int64(st.ZombieUnsubs))
 	r.Count("replay_subscription_contexts_cancelled", int64(st.SubCtxCancels))
+	r.Count("shutdown_calls_between_publishes", int64(st.Shutdowns))
 	r.Count("panicking_invocations", int64(st.Panics))
 	r.Count("mid_publish_cancels", int64(st.Cancels))
 	r.Count("trace_events", int64(len(e.Trace)))
